@@ -17,6 +17,7 @@ OPERATOR_DICT = {
     '-': operator.sub,
     '*': operator.mul,
     '/': operator.truediv,
+    '&': operator.and_,  # arrays only (ExcelArrayOps): & joins them item by item
     '>': operator.gt,
     '<': operator.lt,
     '<>': operator.ne,
